@@ -21,6 +21,7 @@ structure WF2 (C : Cfg) : Prop where
   lines_nodup : ∀ n, n < C.nets.length → (netOf C n).lines.Nodup
   children_mg : ∀ n, n < C.nets.length → ∀ m ∈ (netOf C n).children, isMg C m = true
   cb_owned : ∀ c, c < C.cbLine.length → ∃ n, n < C.nets.length ∧ (netOf C n).cb = c
+  sec_owned : ∀ k, k < C.secs.length → ∃ n, n < C.nets.length ∧ k ∈ (netOf C n).secs
 
 theorem noDup_nodup : ∀ (l : List Nat), noDup l = true → l.Nodup
   | [], _ => List.nodup_nil
@@ -31,8 +32,8 @@ theorem noDup_nodup : ∀ (l : List Nat), noDup l = true → l.Nodup
 theorem WF2.of_wfB2 (C : Cfg) (h : wfB2 C = true) : WF2 C := by
   unfold wfB2 at h
   simp only [Bool.and_eq_true, List.all_eq_true, List.mem_range, decide_eq_true_eq, List.contains_iff_mem, beq_iff_eq] at h
-  obtain ⟨⟨⟨⟨⟨h1, h2⟩, h3⟩, h4⟩, h5⟩, h6⟩ := h
-  refine ⟨fun d hd => h1 d hd, fun c hc => h2 c hc, ?_, ?_, ?_, ?_, ?_, ?_⟩
+  obtain ⟨⟨⟨⟨⟨⟨h1, h2⟩, h3⟩, h4⟩, h5⟩, h6⟩, h7⟩ := h
+  refine ⟨fun d hd => h1 d hd, fun c hc => h2 c hc, ?_, ?_, ?_, ?_, ?_, ?_, ?_⟩
   · intro l hl c hc
     have := (h3 l hl).1
     rw [hc] at this
@@ -51,6 +52,10 @@ theorem WF2.of_wfB2 (C : Cfg) (h : wfB2 C = true) : WF2 C := by
   · intro c hc
     have := h6 c hc
     simp only [List.any_eq_true, List.mem_range, beq_iff_eq] at this
+    exact this
+  · intro k hk
+    have := h7 k hk
+    simp only [List.any_eq_true, List.mem_range, List.contains_iff_mem] at this
     exact this
 
 /-- switch positions agree with lines -/
